@@ -110,9 +110,18 @@ class Gen:
       body = ["return %s" % default_expr(ra, self)]
     else:
       body = []
-      if r.random() < 0.3:
-        body.append("if _cond(): return %s" % self.expr(2, names))
-      body.append("return %s" % self.expr(2, names))
+      if r.random() < 0.15:
+        # a RESULT that is a union of a PEP 484 "compat" pair: the printer may collapse such a pair in a parameter
+        # annotation (int is acceptable where float is declared) but never in a return type
+        lo, hi = r.choice([("1", "2.5"), ("2.5", "1j"), ("1", "1j"), ('b"x"', 'bytearray(b"y")'), ("[1]", "[2.5]")])
+        if r.random() < 0.5:
+          lo, hi = hi, lo
+        body.append("if _cond(): return %s" % lo)
+        body.append("return %s" % hi)
+      else:
+        if r.random() < 0.3:
+          body.append("if _cond(): return %s" % self.expr(2, names))
+        body.append("return %s" % self.expr(2, names))
     pad = " " * indent
     deco = "" if kind in ("method",) or not is_method else pad + "@%s\n" % kind
     return deco + pad + "def %s(%s)%s:\n" % (name, ", ".join(sig), ret) + "".join(pad + "  " + b + "\n" for b in body)
